@@ -281,9 +281,8 @@ def keyOf (labels : List (Nat × Nat × Nat)) (m : MapRow) : GroupKey :=
 /-- executable form of the hypothesis of `C13.makePeriodic_is_merge`: any two groups that share a variable have
     the same variables -/
 def partitionCheck (M : List MapRow) (labels : List (Nat × Nat × Nat)) : Bool :=
-  M.all fun m1 => M.all fun m2 =>
-    !((grp M labels (keyOf labels m1)).any fun v => (grp M labels (keyOf labels m2)).contains v) ||
-      (grp M labels (keyOf labels m1)).all fun w => (grp M labels (keyOf labels m2)).contains w
+  let gs := ((M.map (keyOf labels)).eraseDups).map (grp M labels)
+  gs.all fun g1 => gs.all fun g2 => !(g1.any fun v => g2.contains v) || g1.all fun w => g2.contains w
 
 /-- the leader map `makePeriodic` ends with -/
 def finalLead (P : AssetProblem) (labels : List (Nat × Nat × Nat)) (j : Nat) : Nat :=
